@@ -140,6 +140,17 @@ func cflistEvent(b band.Band, ver string) M {
 
 var cfVersions = []string{band.LoRaWAN_1_0_0, band.LoRaWAN_1_0_1, band.LoRaWAN_1_0_2, band.LoRaWAN_1_0_3, band.LoRaWAN_1_0_4, band.LoRaWAN_1_1_0, "2.0.0"}
 
+// tlcIndex: how an index beyond TLC's 32-bit integers is written in an event (see genIndex): far out of range, same sign
+func tlcIndex(i int) int {
+	if i >= 1<<31 {
+		return 1<<30 + i%(1<<20)
+	}
+	if i < -(1 << 31) {
+		return -(1 << 30) - (-i)%(1<<20)
+	}
+	return i
+}
+
 func (c *ctx) genIndex(n int) int {
 	switch c.rnd.Intn(10) {
 	case 0:
@@ -148,6 +159,14 @@ func (c *ctx) genIndex(n int) int {
 		return n + c.rnd.Intn(3)
 	case 2:
 		return c.pick(-1<<31+1, 1<<31-1, 1000000)
+	case 3:
+		// an index that is a valid one modulo 2^32 (or 2^16): only a check done in a narrower type takes it for valid.
+		// Events carry such an index as 2^30 + low part (TLC computes with 32-bit integers): out of range either way.
+		k := 0
+		if n > 0 {
+			k = c.rnd.Intn(n)
+		}
+		return k + c.pick(1<<32, -(1 << 32), 1<<33, 1<<16, -(1 << 16), 1<<62)
 	default:
 		if n == 0 {
 			return 0
@@ -207,12 +226,12 @@ func (c *ctx) applyRandomOp(b band.Band, n int, chans []band.VerifChannel, maxCh
 	case 1:
 		i := c.genIndex(n)
 		ev["op"] = "disable"
-		ev["i"] = i
+		ev["i"] = tlcIndex(i)
 		ev["code"] = codeErr(func() error { return b.DisableUplinkChannelIndex(i) })
 	default:
 		i := c.genIndex(n)
 		ev["op"] = "enable"
-		ev["i"] = i
+		ev["i"] = tlcIndex(i)
 		ev["code"] = codeErr(func() error { return b.EnableUplinkChannelIndex(i) })
 	}
 	return ev
@@ -261,6 +280,24 @@ func (c *ctx) history(name band.Name, nops int) error {
 			}
 		}
 		c.emit(cflistEvent(b, cfVersions[c.rnd.Intn(len(cfVersions))]))
+	}
+	if proj["extra"].(bool) && c.rnd.Intn(4) == 0 {
+		// a plan grown beyond one 16-channel block (17..24 channels): indices from 16 on exist
+		target := 17 + c.rnd.Intn(8)
+		for len(chans) < target {
+			f := c.bandFreq(chans)/100*100 + 100
+			ev := M{"ev": "op", "bname": b.Name(), "op": "add", "rawf": strconv.FormatUint(uint64(f), 10), "f": freqVal(f), "min": 0, "max": 5}
+			ev["code"] = codeErr(func() error { return b.AddChannel(f, 0, 5) })
+			if proj, chans, err = planProjection(b); err != nil {
+				return err
+			}
+			ev["proj"] = proj
+			ev["lookups"] = lookupEvents(c, b, chans)
+			c.emit(ev)
+			if ev["code"] != 0 {
+				break
+			}
+		}
 	}
 	if proj["extra"].(bool) && c.rnd.Intn(4) == 0 {
 		// single-data-rate channels added from the top down: the set of enabled data-rates has a hole that the next
